@@ -20,6 +20,7 @@ pub const SHADER_TYPES: &str = "struct T0 { a: f32 };\nstruct T1 { a: vec2<f32> 
 pub const SHADER_MULTI: &str = "struct VA { @location(0) p: vec4<f32>, @location(1) q: vec2<f32> };\nstruct VB { @location(0) p: vec4<f32> };\nstruct VC { @location(0) r: vec3<f32>, @location(2) s: f32 };\nstruct VD { @location(0) t: vec2<u32> };\nstruct HA { a: vec4<f32> };\nstruct HB { a: vec4<f32> };\nstruct HC { a: vec4<f32>, b: vec4<f32> };\nstruct HD { x: HA, y: HB };\nstruct FO { @location(0) c0: vec4<f32>, @location(1) c1: vec4<f32> };\n@group(0) @binding(0) var<uniform> ha: HA;\n@group(0) @binding(1) var<uniform> hb: HB;\n@group(1) @binding(0) var<storage, read> hc: HC;\n@group(1) @binding(1) var<storage, read_write> hd: HD;\n@group(2) @binding(0) var ta: texture_2d<f32>;\n@group(2) @binding(1) var tb: texture_2d<f32>;\n@group(2) @binding(2) var sa: sampler;\n@group(2) @binding(3) var sb: sampler;\nvar<push_constant> pc: HA;\nconst CA: f32 = 1.0;\nconst CB: f32 = 1.0;\nconst CC: u32 = 1u;\noverride oa: f32 = 1.0;\noverride ob: f32 = 1.0;\n@id(3) override oc: bool = true;\nfn fa() -> f32 { return ha.a.x; }\nfn fb() -> f32 { return hb.a.x + fa(); }\n@vertex fn vs_a(i: VA) -> @builtin(position) vec4<f32> { return i.p * fa() * oa; }\n@vertex fn vs_b(i: VB) -> @builtin(position) vec4<f32> { return i.p * fb() * ob; }\n@vertex fn vs_c(i: VC, j: VD) -> @builtin(position) vec4<f32> { return vec4<f32>(i.r, i.s) + pc.a; }\n@vertex fn vs_d(j: VD, i: VA) -> @builtin(position) vec4<f32> { return i.p; }\n@fragment fn fs_a() -> FO { var o: FO; o.c0 = textureSample(ta, sa, vec2<f32>(0.5)); return o; }\n@fragment fn fs_b() -> @location(0) vec4<f32> { if oc { return textureSample(tb, sb, vec2<f32>(0.5)) * hc.a; } return hc.b; }\n@compute @workgroup_size(1) fn cs_a() { hd.x.a = hc.a * CA; }\n@compute @workgroup_size(2) fn cs_b() { hd.y.a = hc.b * CB * f32(CC); }\n";
 const SHADER_PARSE_ERROR: &str = "struct Data { a: vec4<f32> \n@compute fn main( {}\n";
 const SHADER_NONCONSECUTIVE: &str = "@group(0) @binding(0) var<uniform> data: vec4<f32>;\n@group(2) @binding(0) var<uniform> extra: vec4<f32>;\n@compute @workgroup_size(1) fn main() { let x = data.x + extra.x; }\n";
+const SHADER_PC: &str = "struct Pc { tint: vec4<f32>, k: f32 };\nvar<push_constant> pc: Pc;\n@group(0) @binding(0) var<uniform> u: vec4<f32>;\n@vertex fn vs_main() -> @builtin(position) vec4<f32> { return u; }\n@fragment fn fs_main() -> @location(0) vec4<f32> { return pc.tint * pc.k; }\n";
 const SHADER_PANICS: &str = "struct Data { n: u32, items: array<f32> };\n@group(0) @binding(0) var<storage, read> data: Data;\n@compute @workgroup_size(1) fn main() { let x = data.n; }\n";
 
 #[derive(Clone, Debug)]
@@ -52,6 +53,11 @@ pub fn alphabet() -> Vec<Call> {
         Call { name: "types", src: SHADER_TYPES, cfg: Config { bytemuck_host: true, encase: true, repr: Repr::Nalgebra, ..Config::default() }, include: None },
         Call { name: "multi", src: SHADER_MULTI, cfg: full, include: None },
         Call { name: "A-include", src: SHADER_A, cfg: full, include: Some(INCLUDE_PATH) },
+        // one source under several option sets whose outcomes differ (accepted / rejected by the validator)
+        Call { name: "PC-validate-all", src: SHADER_PC, cfg: Config { validate: Validate::All, ..Config::default() }, include: None },
+        Call { name: "PC-validate-empty", src: SHADER_PC, cfg: Config { validate: Validate::Empty, ..Config::default() }, include: None },
+        Call { name: "PC-default", src: SHADER_PC, cfg: Config::default(), include: None },
+        Call { name: "PC-full-rustfmt", src: SHADER_PC, cfg: Config { rustfmt: true, validate: Validate::All, ..full }, include: None },
     ]
 }
 
@@ -384,7 +390,7 @@ pub fn run(tier: &str) -> i32 {
             Err(e) => machinery(&format!("C18 reference run failed: {e}")),
         }
     }
-    for (i, want) in [(0usize, "ok:"), (1, "ok:"), (2, "err:ParseError"), (3, "err:NonConsecutiveBindGroups"), (4, "panic:"), (5, "ok:"), (6, "ok:"), (7, "ok:"), (8, "ok:")] {
+    for (i, want) in [(0usize, "ok:"), (1, "ok:"), (2, "err:ParseError"), (3, "err:NonConsecutiveBindGroups"), (4, "panic:"), (5, "ok:"), (6, "ok:"), (7, "ok:"), (8, "ok:"), (9, "ok:"), (10, "err:ValidationError"), (11, "ok:"), (12, "ok:")] {
         if !reference[&i].starts_with(want) {
             machinery(&format!("C18 alphabet input {} does not behave as designed: {}", alpha[i].name, reference[&i]));
         }
@@ -396,6 +402,14 @@ pub fn run(tier: &str) -> i32 {
     let mut seqs: Vec<Vec<usize>> = vec![];
     for d in 1..=depth {
         seqs.extend(wgslgen::sequences(n_hist_alpha, d));
+    }
+    // the same source under different option sets (and one unrelated input): a call must not learn from an earlier
+    // call with other options
+    let opt_alpha = [9usize, 10, 11, 12, 0];
+    for d in 2..=depth {
+        for s in wgslgen::sequences(opt_alpha.len(), d) {
+            seqs.push(s.iter().map(|i| opt_alpha[*i]).collect());
+        }
     }
     let hist = par_map(&seqs, |s| run_child(&["c18-history", &s.iter().map(|x| x.to_string()).collect::<Vec<_>>().join(",")], &[], false, None));
     let mut hist_outcomes = BTreeSet::new();
@@ -604,7 +618,7 @@ pub fn run(tier: &str) -> i32 {
     rep.traces_validated = rep.evaluations;
     rep.sample(json!({"history": ["A", "B", "A-rustfmt"], "inputs": {"A": SHADER_A, "B": SHADER_B}}));
     rep.sample(json!({"schedule_threads": [["A"], ["B"]], "yield_points": ["gen:parsed", "gen:validated", "gen:groups", "gen:stages", "gen:structs", "gen:consts", "gen:bindgroups", "gen:vertex", "gen:compute", "gen:entries", "gen:overrides", "gen:assembled"]}));
-    rep.rule = format!("(1) all call sequences of length <= {depth} over a 6-input alphabet built to collide (shaders A and B declare the same struct / variable / entry names with different types, stages and groups; a parse error; non-consecutive groups; an input that panics inside generation; A with rustfmt) in one fresh process each, every result compared with the same input alone in a fresh process; (2) real threads running real calls under a controlled scheduler (12 section yield points per call), all schedules within the stated preemption bound per thread program; (3) {seeds} enumerated hash seeds (getrandom interposer) x working directory {{/, empty dir, a dir where the include path exists, inherited}} x environment {{inherited, cleared, noisy}}; (4) strace monitor and source audit. Oracle: byte-identical text / same error variant as the isolated reference.");
+    rep.rule = format!("(1) all call sequences of length <= {depth} over a 6-input alphabet and over one source under 4 option sets (validator accepts / rejects / off / everything on) built to collide (shaders A and B declare the same struct / variable / entry names with different types, stages and groups; a parse error; non-consecutive groups; an input that panics inside generation; A with rustfmt) in one fresh process each, every result compared with the same input alone in a fresh process; (2) real threads running real calls under a controlled scheduler (12 section yield points per call), all schedules within the stated preemption bound per thread program; (3) {seeds} enumerated hash seeds (getrandom interposer) x working directory {{/, empty dir, a dir where the include path exists, inherited}} x environment {{inherited, cleared, noisy}}; (4) strace monitor and source audit. Oracle: byte-identical text / same error variant as the isolated reference.");
     rep.finish()
 }
 
